@@ -73,6 +73,9 @@ func newReplayer(p *Program) *replayer {
 }
 
 func (r *replayer) cleanup() {
+	if os.Getenv("VERIF_KEEP") != "" {
+		return
+	}
 	os.RemoveAll(r.dir)
 	if r.race != nil {
 		os.RemoveAll(r.race.dir)
